@@ -261,7 +261,9 @@ func (p *parser) parseVectorAggregationExpr() (e *VectorAggregationExpr, err err
 			return err
 		}
 
-		if t := p.peek(); t.Type == lexer.Number {
+		// Leading number is a parameter only if it is followed by comma,
+		// otherwise it is a part of expression like "sum(2 * rate(...))".
+		if t := p.peek(); t.Type == lexer.Number && p.peekNext().Type == lexer.Comma {
 			param, err := p.parseInt()
 			if err != nil {
 				return err
